@@ -218,7 +218,7 @@ func VerifC06ApplyActionsOnce() {
 	vrt.Assert("C06.apply.nothing-invented", len(*calls) == n)
 }
 
-// verif:harness props=C06,C05 tier=quick native=yes weight=15 shards=2
+// verif:harness props=C06,C05 tier=quick native=yes weight=15
 // verif:bounds one message on a real MemoryStore with arbitrary prior attempt count; Dequeue -> classifyDelivery -> applyLeaseAction with every status / error kind / retry.max in 1..3; exponential retry without jitter, base and cap symbolic
 func VerifC06ComposedStep() {
 	now := vrt.Time("now")
